@@ -109,7 +109,7 @@ fn scenarios(tier: Tier) -> Vec<(Program, usize)> {
 }
 
 fn random_case() -> impl Strategy<Value = Case> {
-    let wm = WriteMix { bad_decls: false, meta: true, by_hash: false };
+    let wm = WriteMix { bad_decls: false, meta: true, by_hash: false, rich_matching: false, interfere: false };
     (
         gen::key_pool(2, 3),
         gen::blob_pool(2, 3, SizeMix::Small),
